@@ -122,8 +122,19 @@ def run(res, b, tier, seed):
             # files reached twice) must not hide a new one further down the list (regression after round 6: C16-3)
             for p in probs:
                 fails.append((c, "batch", p))
+    # what the USER gets is what the tsh command writes: for a sample of the accepted programs (single files, import graphs), invocations
+    # that name a target once, twice, and both targets in both orders must write exactly the scripts checked above (round 8: C16-A, a
+    # converter object shared by two "-t batch" options - every label defined twice in the file that is finally written)
+    import cli
+    both_ok = [c for c in cases if c.out.get("BASH", ("", ""))[0] == "OK" and c.out.get("BATCH", ("", ""))[0] == "OK"]
+    sample = both_ok[:6] + [c for c in both_ok if c.id.startswith(("m", "dg", "std"))][:6]
+    jobs = [(c, ts) for c in sample for ts in (("batch", "batch"), ("bash", "bash"), ("batch", "bash", "batch", "bash"), ("bash", "batch"))]
+    for (c, ts), probs in zip(jobs, common.pmap(lambda j: cli.compare_with_library(b, j[0], j[1]), jobs)):
+        for p_ in probs:
+            fails.append((c, "command", "tsh -i main.tsh -o out %s: %s" % (" ".join("-t " + t for t in ts), p_)))
     res.coverage.update(dict(
         evaluations=len(cases),
+        command_invocations=len(jobs),
         distinct_nontrivial=len({c.meta["src"] for c in cases}),
         rule="repo test programs, import graphs over several files, every statement position filled from an expression zoo (accepted ones are checked like any other), builtin snippets (input, read, write, exists, program calls, copy, empty blocks, nested loops with break/continue) and "
              "generated whole-language programs (deep nesting, many functions); bash: `bash -n` on every emitted script; batch: structural predicates on the "
@@ -150,7 +161,7 @@ def run(res, b, tier, seed):
             continue
         seen.add(key)
         res.violation("oracle", dict(target=target, what=what, program=c.meta["src"],
-                                     script=bytes.fromhex(c.out["BATCH" if target == "batch" else "BASH"][1]).decode("utf-8", "replace")))
+                                     script=bytes.fromhex(c.out["BATCH" if target in ("batch", "command") else "BASH"][1]).decode("utf-8", "replace")))
     if not real and (dis or not pr["ok"]):
         if dis:
             c, key = dis[0]
